@@ -9,6 +9,7 @@ import AnyVecModel.Proofs.Own
 import AnyVecModel.Proofs.KernelDropRange
 import AnyVecModel.Proofs.KernelTempDrop
 import AnyVecModel.Proofs.KernelClear
+import AnyVecModel.Proofs.KernelClone
 import AnyVecModel.Props.Hist
 namespace AnyVec
 namespace C03
@@ -171,6 +172,14 @@ theorem removed_element_is_out_of_reach_is_the_source (len index : Nat) (hi : in
     (∃ l last, Gen.Kernel.remove_new len index = .ok (.made l [index, last]) ∧ l ≤ index) ∧
     (∃ l last, Gen.Kernel.swap_remove_new len index = .ok (.made l [index, last]) ∧ l ≤ index) :=
   ⟨⟨len - 1, rfl, Nat.le_refl _⟩, ⟨index, len - 1, rfl, Nat.le_refl _⟩, ⟨index, len - 1, rfl, Nat.le_refl _⟩⟩
+
+/-- **source tie**: the erased destructor a vector stores (`drop_fn`, the closure in `AnyVecRaw::new` of
+`/repo/src/any_vec_raw.rs`, re-translated on this run) runs `drop_in_place::<T>` once per element, in increasing
+order, advancing by exactly one element - and calling it is what `dropFn` in the command lists above means. -/
+theorem erased_destructor_is_the_source (n : Nat) (c : KernelTie.MCtx) (s : Nat) :
+    Gen.Kernel.drop_fn_cmds n = [.dropEach 0 n] ∧
+    KernelTie.runCmd c (.dropFn s n) = KernelTie.runCmd c (.dropEach s n) :=
+  ⟨KernelTie.drop_fn_tie n, KernelTie.dropFn_is_dropEach c s n⟩
 
 end C03
 end AnyVec
